@@ -56,31 +56,36 @@ static void pred_slicing(const Case &c) {
         // product split over the rows (K_MV: rows of the matrix; K_VM: the transposed use, split over columns of a rows-column matrix)
         libsci_verif_nproc = (size_t)th;
         if (kernel == K_MV) {
-          V x(v.begin(), v.begin() + NC); dvector *dx = to_lib(x), *p1, *p2; NewDVector(&p1, rows); NewDVector(&p2, rows);
-          MT_MatrixDVectorDotProduct(m, dx, p1); MatrixDVectorDotProduct(m, dx, p2);
+          V x(v.begin(), v.begin() + NC); dvector *dx = to_lib(x), *p1, *p2, *p3; NewDVector(&p1, rows); NewDVector(&p2, rows); NewDVector(&p3, rows);
+          MT_MatrixDVectorDotProduct(m, dx, p1); MatrixDVectorDotProduct(m, dx, p2); MT_MatrixDVectorDotProduct(m, dx, p3);
+          // "the single-threaded result to rounding; bit-identical between repeated runs": the data are strictly positive, so a row
+          // that is skipped or visited twice is off by 100 %, far outside the rounding of NC products
           for (int i = 0; i < rows; i++) { ld s = 0; for (int j = 0; j < NC; j++) s += Ar(i, j) * x[j];
-            if (p1->data[i] != p2->data[i] || fabsl(p1->data[i] - s) > 64 * NC * EPS * fabsl(s)) fail(fmt("%s: row %d = %.17g, sequential %.17g, definition %.17Lg", where.c_str(), i, p1->data[i], p2->data[i], s)); }
-          DelDVector(&dx); DelDVector(&p1); DelDVector(&p2);
+            if (p1->data[i] != p3->data[i]) fail(fmt("%s: row %d = %.17g in one run and %.17g in the next", where.c_str(), i, p1->data[i], p3->data[i]));
+            if (fabsl(p1->data[i] - (ld)p2->data[i]) > 64 * NC * EPS * fabsl(s) || fabsl(p1->data[i] - s) > 64 * NC * EPS * fabsl(s)) fail(fmt("%s: row %d = %.17g, sequential %.17g, definition %.17Lg", where.c_str(), i, p1->data[i], p2->data[i], s)); }
+          DelDVector(&dx); DelDVector(&p1); DelDVector(&p2); DelDVector(&p3);
         } else {
           M At = transpose(Ar); matrix *mt = to_lib(At);   // NC x rows: the kernel splits the columns
-          V x(v.begin(), v.begin() + NC); dvector *dx = to_lib(x), *p1, *p2; NewDVector(&p1, rows); NewDVector(&p2, rows);
-          MT_DVectorMatrixDotProduct(mt, dx, p1); DVectorMatrixDotProduct(mt, dx, p2);
+          V x(v.begin(), v.begin() + NC); dvector *dx = to_lib(x), *p1, *p2, *p3; NewDVector(&p1, rows); NewDVector(&p2, rows); NewDVector(&p3, rows);
+          MT_DVectorMatrixDotProduct(mt, dx, p1); DVectorMatrixDotProduct(mt, dx, p2); MT_DVectorMatrixDotProduct(mt, dx, p3);
           for (int i = 0; i < rows; i++) { ld s = 0; for (int j = 0; j < NC; j++) s += Ar(i, j) * x[j];
-            if (p1->data[i] != p2->data[i] || fabsl(p1->data[i] - s) > 64 * NC * EPS * fabsl(s)) fail(fmt("%s: column %d = %.17g, sequential %.17g, definition %.17Lg (an accumulating kernel shows a column visited twice as a doubled value)", where.c_str(), i, p1->data[i], p2->data[i], s)); }
-          DelMatrix(&mt); DelDVector(&dx); DelDVector(&p1); DelDVector(&p2);
+            if (p1->data[i] != p3->data[i]) fail(fmt("%s: column %d = %.17g in one run and %.17g in the next", where.c_str(), i, p1->data[i], p3->data[i]));
+            if (fabsl(p1->data[i] - (ld)p2->data[i]) > 64 * NC * EPS * fabsl(s) || fabsl(p1->data[i] - s) > 64 * NC * EPS * fabsl(s)) fail(fmt("%s: column %d = %.17g, sequential %.17g, definition %.17Lg (an accumulating kernel shows a column visited twice as a doubled value)", where.c_str(), i, p1->data[i], p2->data[i], s)); }
+          DelMatrix(&mt); DelDVector(&dx); DelDVector(&p1); DelDVector(&p2); DelDVector(&p3);
         }
       } else if (kernel >= K_DIST_E && kernel <= K_DIST_C) {
         int which = kernel - K_DIST_E;
-        matrix *d1, *d2; initMatrix(&d1); initMatrix(&d2);
-        CalculateDistance(m, m2, d1, (size_t)th, (enum cmethod)which);
+        matrix *d1, *d2, *d3; initMatrix(&d1); initMatrix(&d2); initMatrix(&d3);
+        CalculateDistance(m, m2, d1, (size_t)th, (enum cmethod)which); CalculateDistance(m, m2, d3, (size_t)th, (enum cmethod)which);
         if (which == 0) EuclideanDistance_ST(m, m2, d2); else if (which == 1) SquaredEuclideanDistance_ST(m, m2, d2); else if (which == 2) ManhattanDistance_ST(m, m2, d2); else CosineDistance_ST(m, m2, d2);
         if ((int)d1->row != 6 || (int)d1->col != rows) fail(fmt("%s: result is %s, expected 6x%d", where.c_str(), dims(d1).c_str(), rows));
         for (int k = 0; k < 6; k++) for (int i = 0; i < rows; i++) {
           ld ref = metric(which, Ar, i, B2, k);
-          if (d1->data[k][i] != d2->data[k][i] || fabsl(d1->data[k][i] - ref) > 64 * (NC + 2) * EPS * fabsl(ref) + 1e-300L)
+          if ((int)d3->row != 6 || (int)d3->col != rows || d1->data[k][i] != d3->data[k][i]) fail(fmt("%s: distance of object %d to point %d differs between two runs", where.c_str(), i, k));
+          if (fabsl(d1->data[k][i] - (ld)d2->data[k][i]) > 64 * (NC + 2) * EPS * fabsl(ref) + 1e-300L || fabsl(d1->data[k][i] - ref) > 64 * (NC + 2) * EPS * fabsl(ref) + 1e-300L)
             fail(fmt("%s: distance of object %d to point %d = %.17g, single-thread %.17g, definition %.17Lg", where.c_str(), i, k, d1->data[k][i], d2->data[k][i], ref));
         }
-        DelMatrix(&d1); DelMatrix(&d2);
+        DelMatrix(&d1); DelMatrix(&d2); DelMatrix(&d3);
       } else if (kernel >= K_COND_E && kernel <= K_COND_C) {
         int which = kernel - K_COND_E;
         dvector *dv; initDVector(&dv);
